@@ -327,6 +327,31 @@ def no_monkeypatching(rep: Report) -> None:
         rep.ok("R16.11", "package", note="no module assigns into measured._parser or into an object it hands out")
 
 
+LANGUAGE_NEUTRAL_OPTIONS = {"transformer"}
+
+
+def parser_options(rep: Report) -> None:
+    """R16.12: the parser the library uses is `_parser.Parser(transformer=...)` - the generated tables run as they are.  Every
+    other option of the standalone loader (postlex, lexer_callbacks, edit_terminals, propagate_positions, tree_class, ...)
+    puts code between the tables and the result: a postlexer rewrites the token stream, so the library's parser accepts texts
+    the grammar rejects while every byte of the generated module is still the compared one."""
+    import glob
+    n = 0
+    for path in sorted(glob.glob(os.path.join(SRC, "*.py"))):
+        if os.path.basename(path) == "_parser.py":
+            continue
+        t = ast.parse(open(path, encoding="utf-8").read())
+        for c in ast.walk(t):
+            if isinstance(c, ast.Call) and ast.unparse(c.func).split(".")[-1] in ("Parser", "Lark_StandAlone") and "_parser" in ast.unparse(c.func):
+                n += 1
+                extra = sorted((k.arg or "**") for k in c.keywords if k.arg not in LANGUAGE_NEUTRAL_OPTIONS)
+                rep.check("R16.12", f"{os.path.basename(path)}:{ast.unparse(c.func)}", not extra and not c.args,
+                          f"{os.path.basename(path)} builds the parser with {extra or 'positional arguments'}: an option other than the transformer changes which "
+                          "texts are accepted or how they are read, outside the tables compared with the grammar", f"{rel(path)}:{c.lineno}")
+    if n == 0:
+        raise AnalysisError("no _parser.Parser(...) call found in the package (R16.12 anchor moved)")
+
+
 def parser_wiring(rep: Report, tree: ast.Module) -> None:
     """R16.8: the LALR driver consults the compared tables and nothing else:
       a. the action for a token is `states[<top of state stack>][token.type]`, a miss raises UnexpectedToken;
@@ -384,6 +409,7 @@ def run(rep: Report) -> None:
     rep.rule("R16.3", "rules: same origin, expansion (incl. filtered tokens), alias, order and tree-shaping options", floor=15)
     rep.rule("R16.4", "LALR tables isomorphic under the renaming induced by BFS from the start states, including end "
              "states and reduce targets", floor=1)
+    rep.rule("R16.12", "the library builds its parser from the generated module with the transformer only (no postlexer, callbacks or terminal editing)", floor=1)
     rep.rule("R16.5", "wiring: Parser() loads exactly DATA and MEMO, each assigned once", floor=3)
     rep.rule("R16.6", "runtime text equals lark.tools.standalone output (only when the embedded version equals the installed Lark)", armed=False)
     mk = makefile_flags()
@@ -459,6 +485,7 @@ def run(rep: Report) -> None:
     lexer_wiring(rep, sh.tree)
     parser_wiring(rep, sh.tree)
     no_monkeypatching(rep)
+    parser_options(rep)
     runtime_against_installed(rep, sh.tree, str(sh.version), str(lark_version))
     # R16.6
     rep.inventory("R16.6", {"embedded_lark": sh.version, "installed_lark": lark_version,
